@@ -33,7 +33,9 @@ def vlit(v):
 
 def case_text(E, PS, o):
     b = o["b"]
-    sq = [(o["x"] * o["x"] + o["y"] * o["y"], o["r"])]
+    from fractions import Fraction
+    # exact x^2 + y^2 -> the radius the implementation's mapper used (validated inside Coq: oracles_ok)
+    sq = [(Fraction(o["x"]) ** 2 + Fraction(o["y"]) ** 2, o["r"])]
     t = b[0] * b[0] + 0.0 * 0.0 + b[2] * b[2]
     if t != 0.0:
         sq.append((t, math.sqrt(t)))
@@ -45,7 +47,8 @@ def case_text(E, PS, o):
              "(%s, %s)" % (qlit(o["cs"][0]), qlit(o["cs"][1])),
              qlit(PS.outside), vlit(PS.outv_t),
              qlit(o["psin"]), qlit(o["inside"]), qlit(o["map2d"]), qlit(o["map3d"]),
-             vlit(o["b"]), vlit(o["tor"]), vlit(o["pol"]), vlit(o["nor"]), vlit(o["v2"]), vlit(o["v3"])]
+             vlit(o["b"]), vlit(o["tor"]), vlit(o["pol"]), vlit(o["nor"]), vlit(o["v2"]), vlit(o["v3"]),
+             "%d%%Z" % o["skip"]]
     return "check_case (C12case " + " ".join(parts) + ")"
 
 
@@ -109,7 +112,7 @@ def run(ctx):
     classes, stage_inputs = {}, {"inside": 0, "outside_polygon": 0, "polygon_but_psin_gt_1": 0, "clamped_psin_0": 0,
                                  "zero_inplane_field": 0, "one_inplane_component_zero": 0, "psin_exactly_1_inside_polygon": 0}
     profile_kinds = {}
-    n_search = n_errors = 0
+    n_search = n_errors = n_radius_split = 0
     for E in eqs:
         n_pts = n_pts_bundled if E.params is None else n_pts_syn
         pts = H.sample_points(E, rng, n_pts)
@@ -128,7 +131,11 @@ def run(ctx):
             ctx.crumb(info)
             o = H.evaluate_point(E, PS, fns, x, y, z)
             if o["errors"]:
-                for nm, err in list(o["errors"].items())[:1]:
+                if "mapper_radius" in o["errors"]:
+                    fails.append(dict(info, clause="3-D mapper does not evaluate the 2-D function at (sqrt(x^2+y^2), z)",
+                                      error=o["errors"]["mapper_radius"], radius_scalar_mapper=o["r_scalar_mapper"],
+                                      radius_vector_mapper=o["r_vector_mapper"]))
+                for nm, err in [kv for kv in o["errors"].items() if kv[0] != "mapper_radius"][:1]:
                     fails.append(dict(info, clause="%s raised %s at a point of the (r, z) grid domain" % (nm, err.split(":")[0]),
                                       error=err, r=o["r"], psi_n=o["psin"], inside_lcfs=o["inside"]))
                 if o["psin"] is not None and not o["psin"] >= 0.0:
@@ -155,6 +162,13 @@ def run(ctx):
                 stage_inputs["psin_exactly_1_inside_polygon"] += 1
             cases.append(case_text(E, PS, o))
             meta.append(dict(info, outputs=o))
+            if o["skip"]:
+                # the two mappers chose different radii: second case through the vector mapper's radius
+                n_radius_split += 1
+                o2 = H.evaluate_point(E, PS, fns, x, y, z, which="vector")
+                if not o2["errors"] and finite(o2):
+                    cases.append(case_text(E, PS, o2))
+                    meta.append(dict(info, outputs=o2))
             # the executable statement of the property on the implementation
             n_search += 1
             ff = H.property_failures(E, PS, fns, o)
@@ -274,12 +288,16 @@ def run(ctx):
         "distribution": {"equilibria": [E.describe()["name"] for E in eqs], "sign_of_psi_lcfs_minus_psi_axis": sign_hist,
                          "point_classes": classes, "lcfs_classes": stage_inputs, "profile_kinds": profile_kinds,
                          "ambiguous_psin_within_tolerance_of_1": n_amb, "gradient_node_values": len(grad_cases),
-                         "search_points": n_search, "points_where_the_implementation_raised": n_errors, "disagreeing_stage_histogram": stage_hist},
+                         "search_points": n_search, "points_where_scalar_and_vector_mapper_radius_differ": n_radius_split, "points_where_the_implementation_raised": n_errors, "disagreeing_stage_histogram": stage_hist},
         "tolerance": {"psi_n": "2^-40 + 2^-38 (|psi|+|psi_axis|+|psi_lcfs|)/|psi_lcfs-psi_axis| (absolute)",
                       "inside_lcfs, toroidal_vector, map2d, map3d": "exact",
                       "b_field, poloidal_vector, surface_normal": "2^-40 relative to the largest component",
                       "map_vector2d/3d": "2^-40 (|vt|+|vp|+|vn| (+ |outside|)) absolute",
                       "oracle keys": "sqrt argument 2^-36 relative, profile argument within the psi_n tolerance",
+                      "mapper radius": "the radius the implementation's AxisymmetricMapper / VectorAxisymmetricMapper really hand to the "
+                                       "2-D function (read through a recording function) must satisfy |r^2 - (x^2+y^2)| <= 2^-49 (x^2+y^2) "
+                                       "with x^2+y^2 exact (i.e. r within 2^-50 of the exact square root), checked inside Coq; map3d and "
+                                       "map_vector3d are then compared, exactly / to 2^-40, with the model evaluated at that r",
                       "gradient grids": "2^-38 max|psi line| / |d axis| + 2^-40 |value|",
                       "search": "1e-9 on dot products / lengths / components; inside_lcfs and outside values exact; points closer "
                                 "than 1e-7 to a polygon edge or with |psi_n - 1| < 1e-9 undecided; normal vs grad(psi): 0.15 rad"},
